@@ -23,7 +23,7 @@ RULE = ('batches of seeded random inputs per class: Euler triples with roll/head
         ' Round 5: stacks whose first one to three rows are exactly zero.')
 ASSUMPTIONS = ['mpmath at 40 digits is exact relative to float64',
                'round-trip tolerance scales with 1/cos(pitch) (conditioning of Euler extraction)']
-REQUIRED_OBS = ['stacks_starting_with_zero_rows', 'phi_block_near_singular', 'euler_matrix_mp', 'euler_matrix_float', 'sign_probes', 'roundtrip', 'rotvec_mp',
+REQUIRED_OBS = ['rotvec_near_half_turn', 'stacks_starting_with_zero_rows', 'phi_block_near_singular', 'euler_matrix_mp', 'euler_matrix_float', 'sign_probes', 'roundtrip', 'rotvec_mp',
                 'rotvec_near_branch', 'phi_block_derivative', 'stacked_vs_single']
 REQUIRED_CLASSES = {'all': ['euler_generic', 'euler_steep', 'euler_special', 'rotvec_log', 'rotvec_branch',
                             'phi_block']}
@@ -170,6 +170,12 @@ def run_case(case):
         if cls == 'rotvec_log':
             norm = 10 ** rng.uniform(-12, np.log10(np.pi), n)
             norm[:4] = [0.0, np.pi, 1e-3, np.nextafter(1e-3, 1)]
+            # Round 6: dense on both sides of the half turn and its odd multiples (1 + cos -> 0 there: a "cancellation-free" rewrite of
+            # (1 - cos) / |rv|^2 as k1^2 / (1 + cos) moves the 0/0 from |rv| = 0 to |rv| = pi), and whole turns
+            k_ = n // 4
+            mult = rng.choice([1.0, 1.0, 1.0, 3.0, 5.0, 2.0], k_)
+            norm[10:10 + k_] = (mult * np.pi * (1 + rng.choice([-1, 1], k_) * 10 ** rng.uniform(-16, -1, k_)))[:max(0, min(k_, n - 10))]
+            norm[4:10] = [np.nextafter(np.pi, 0), np.nextafter(np.pi, 4), np.pi * (1 - 1e-9), np.pi * (1 + 1e-9), 3 * np.pi, 2 * np.pi]
         else:
             # dense on both sides of norm^2 = 1e-6
             norm = 1e-3 * (1 + rng.choice([-1, 1], n) * 10 ** rng.uniform(-16, -0.3, n))
@@ -184,9 +190,16 @@ def run_case(case):
         below = above = 0
         for i in range(n):
             mat[:] = np.nan
-            _numba_integrate.mat_from_rotvec(rv[i], mat)
+            try:
+                _numba_integrate.mat_from_rotvec(rv[i], mat)
+            except Exception as ex:          # the function under test refusing a legitimate rotation vector is a verdict, not a harness error
+                fail('exception', f'mat_from_rotvec raised {type(ex).__name__}: {ex} at rv={rv[i].tolist()} (|rv|={float(np.linalg.norm(rv[i])):.17g})')
+                continue
             ref = hp.rotvec_matrix(rv[i])
             e = np.abs(mat - ref).max()
+            near_pi = abs((float(np.linalg.norm(rv[i])) / np.pi) % 2 - 1) < 0.2
+            if near_pi:
+                bump('rotvec_near_half_turn')
             worst = max(worst, e)
             n2 = float(np.sum(rv[i] ** 2))
             below += n2 <= 1e-6
@@ -194,7 +207,7 @@ def run_case(case):
             bump('rotvec_mp')
             if cls == 'rotvec_branch':
                 bump('rotvec_near_branch')
-            if not (e <= 1.5e-15):
+            if not (e <= 1.5e-15 * max(1.0, float(np.linalg.norm(rv[i])) / np.pi)):
                 fail('rotvec_expmap', f'mat_from_rotvec differs from exp map by {e:.3e} at rv={rv[i].tolist()} '
                      f'(|rv|^2={n2:.17g})')
             # the skew part k1*[rv]x carries relative accuracy (no cancellation on either branch)
@@ -202,7 +215,7 @@ def run_case(case):
             nr = float(np.sqrt(n2))
             if nr > 0:
                 worst_skew = max(worst_skew, sk / (EPS * nr))
-            if not (sk <= 8 * EPS * nr + 1e-300):
+            if not (sk <= 8 * EPS * max(nr, min(nr, np.pi) ** 2 / np.pi) + 1e-300):
                 fail('rotvec_skew_part', f'skew part of mat_from_rotvec off by {sk / (EPS * max(nr, 1e-300)):.1f} ulp of |rv| '
                      f'at rv={rv[i].tolist()} (|rv|^2={n2:.17g})')
         obs['max_rotvec_err'] = worst
